@@ -124,7 +124,7 @@ def parse(cmd, rc, out, err, wall, R, gen_name):
                     break
             if fn:
                 break
-        label = _label(R, gl)
+        label = _label(R, gl, prim['line_end'] if prim else gl)
         if any(m in low for m in INCONCLUSIVE_MARKERS):
             U.failed.append(dict(kind='inconclusive', message=msg, gen_line=gl, origin=origin, fn=fn['name'] if fn else None,
                                  obligation=None, rendered=d.get('rendered', '')))
@@ -183,10 +183,11 @@ def _kindword(low):
 _LABEL = re.compile(r'//#\s*([A-Za-z0-9_.:-]+)')
 
 
-def _label(R, gl):
-    """An obligation label: `//# name` comment on the generated line itself."""
-    if 0 < gl <= len(R.lines):
-        m = _LABEL.search(R.lines[gl - 1])
-        if m:
-            return m.group(1)
+def _label(R, gl, gl_end=None):
+    """An obligation label: `//# name` comment on one of the generated lines of the failing clause."""
+    for k in range(gl, (gl_end or gl) + 1):
+        if 0 < k <= len(R.lines):
+            m = _LABEL.search(R.lines[k - 1])
+            if m:
+                return m.group(1)
     return None
